@@ -615,9 +615,11 @@ def run(ctx: vlib.Ctx):
                 ctx.count("arg:" + op[1][2])
     init, ops, hist = recs[len(corpus)]
     ctx.sample({"init": init, "ops": [repr(o) for o in ops], "observed": [repr(h[1:]) for h in hist]})
-    ctx.cov["rule"] = ("random operation histories (1..12 ops over 12 hashable values; arguments as list/tuple/set/"
-                       "OrderedSet/FrozenOrderedSet/iterator/generator) plus the minimised-failure corpus; a case is "
-                       "non-trivial when it has at least one operation; distinct = distinct (init, ops)")
+    ctx.cov["rule"] = (f"random operation histories (1..12 ops over {len(UNIVERSE)} hashable values incl. None, '', a type object and Ellipsis; "
+                       "arguments as list/tuple/set/OrderedSet/FrozenOrderedSet/iterator/generator/the receiver itself) and store "
+                       "histories over several objects (2..16 ops: constructors from other objects, copy, freeze, operations "
+                       "with other objects as arguments) plus the minimised-failure corpus; a case is non-trivial when it has "
+                       "at least one operation; distinct = distinct (init, ops) / distinct store history")
     # S: direct oracle on every history
     n_or = 0
     for init, ops, hist in recs:
